@@ -687,6 +687,28 @@ def task_concrete():
             k += 1
         return k
     tier = os.environ.get('VERIF_TIER', 'quick')
+    # _current_lr_dir / _current_sc_dir on the real functions, exhaustively for small shapes: the adapted code relaxes / coarsens exactly the
+    # wanted directions that can be relaxed (more than two cells) / halved (even, more than two cells)
+    import types
+    LR = {0: '', 1: 'x', 2: 'y', 3: 'z', 4: 'yz', 5: 'xz', 6: 'xy', 7: 'xyz'}
+    SC = {0: 'xyz', 1: 'yz', 2: 'xz', 3: 'xy', 4: 'x', 5: 'y', 6: 'z'}
+    dbad, dcases = None, 0
+    for shp in itertools.product((2, 3, 4, 5, 6, 8), repeat=3):
+        g = types.SimpleNamespace(shape_cells=shp)
+        for lr in range(8):
+            dcases += 1
+            got = int(S._current_lr_dir(lr, g))
+            want = ''.join(d for d in LR[lr] if shp['xyz'.index(d)] != 2)
+            if LR.get(got) != want and dbad is None:
+                dbad = dict(function='_current_lr_dir', shape=shp, lr_dir=lr, got=got, relaxes=LR.get(got), expected_lines=want)
+        for sc in range(4):
+            dcases += 1
+            got = int(S._current_sc_dir(sc, g))
+            want = ''.join(d for d in SC[sc] if shp['xyz'.index(d)] % 2 == 0 and shp['xyz'.index(d)] > 2)
+            if want and SC.get(got) != want and dbad is None:
+                dbad = dict(function='_current_sc_dir', shape=shp, sc_dir=sc, got=got, coarsens=SC.get(got), expected=want)
+    col.concrete('adapted_directions_on_the_real_functions_for_all_small_shapes', dbad is None, dbad or {}, bounded='shapes {2,3,4,5,6,8}^3 x lr_dir 0..7 / sc_dir 0..3',
+                 cases=dcases)
     N = 40 if tier != 'quick' else 18
     bad = None
     cases = 0
